@@ -31,6 +31,7 @@ type op39 struct {
 
 type sys39 struct {
 	cfg      *sysConfig
+	pool     *vmPool
 	genesis  *world
 	nKeys    int
 	maxEpoch uint32
@@ -83,12 +84,13 @@ func newSys39(cfg *sysConfig, nKeys int, maxEpoch uint32) *sys39 {
 	v.deploy(vm.ValidatorSCAddress)
 	v.deploy(vm.DelegationManagerSCAddress)
 	y.genesis = w
+	y.pool = &vmPool{cfg: cfg}
 	return y
 }
 
 func (y *sys39) init() *st39 {
 	w := y.genesis.clone()
-	return &st39{y: y, v: newSysVM(y.cfg, w)}
+	return &st39{y: y, v: y.pool.get(w)}
 }
 
 func (s *st39) staked(k int) *ssc.StakedDataV2_0 {
@@ -461,6 +463,7 @@ func runC39(c *mc.Ctx) {
 			Key:        func(s *st39) string { return s.key() },
 			Nontrivial: func(s *st39) string { return s.nontrivial() },
 			Outcome:    func(s *st39) string { return s.last },
+			Close:      func(s *st39) { y.pool.put(s.v); s.v = nil },
 		}, depth)
 		c.Set("states["+y.cfg.name+"]", st.States)
 		c.Set("transitions["+y.cfg.name+"]", st.Transitions)
